@@ -30,7 +30,7 @@ import (
 	"verif/harness/internal/dbx"
 )
 
-var keys = [][]byte{[]byte("k1"), []byte("k2"), []byte("k3")}
+var sharedKeys = [][]byte{[]byte("k1"), []byte("k2"), []byte("k3")}
 
 type readRec struct {
 	Reader  int               `json:"reader"`
@@ -121,6 +121,20 @@ func run(c *core.Case) {
 	utils.VerifSetYield(p.yield)
 	defer utils.VerifSetYield(nil)
 	nCommitters, nReaders := 2+rng.Intn(2), 3+rng.Intn(3)
+	// Key groups: in every other case all committers write the same three keys (any two
+	// transactions overlap); otherwise every committer owns two keys of its own, so a commit
+	// that becomes visible late is not shadowed by a neighbour's newer version of the same keys.
+	groups := [][][]byte{sharedKeys}
+	keys := sharedKeys
+	disjoint := c.Idx%2 == 1
+	if disjoint {
+		groups, keys = nil, nil
+		for w := 0; w < nCommitters; w++ {
+			g := [][]byte{[]byte(fmt.Sprintf("k%d", 2*w+1)), []byte(fmt.Sprintf("k%d", 2*w+2))}
+			groups = append(groups, g)
+			keys = append(keys, g...)
+		}
+	}
 	rounds := 25
 	var wg sync.WaitGroup
 	var recs []readRec
@@ -136,7 +150,7 @@ func run(c *core.Case) {
 			for i := 0; i < rounds; i++ {
 				id := fmt.Sprintf("c%d.%d", w, i)
 				txn := db.NewTransaction(true)
-				for _, k := range keys {
+				for _, k := range groups[w%len(groups)] {
 					_ = txn.Set(k, []byte(id+"|"+string(k)))
 				}
 				if err := txn.Commit(); err != nil {
@@ -236,7 +250,7 @@ func run(c *core.Case) {
 	}
 	for _, rec := range recs {
 		c.Count("evaluations", 1)
-		detail := map[string]any{"config": cfg, "perturbation_mode": p.mode, "reader_record": rec}
+		detail := map[string]any{"config": cfg, "perturbation_mode": p.mode, "disjoint_key_groups": disjoint, "reader_record": rec}
 		for _, k := range keys {
 			ks := string(k)
 			if rec.First[ks] != rec.Second[ks] {
@@ -248,13 +262,15 @@ func run(c *core.Case) {
 				return
 			}
 		}
-		ids := map[string]bool{}
-		for _, k := range keys {
-			ids[rec.First[string(k)]] = true
-		}
-		if len(ids) > 1 {
-			c.Violation("C05|partial-transaction-visible", fmt.Sprintf("reader %d (read ts %d) saw keys from different transactions: %v (every committer writes all keys)", rec.Reader, rec.ReadTs, rec.First), detail)
-			return
+		for _, g := range groups {
+			ids := map[string]bool{}
+			for _, k := range g {
+				ids[rec.First[string(k)]] = true
+			}
+			if len(ids) > 1 {
+				c.Violation("C05|partial-transaction-visible", fmt.Sprintf("reader %d (read ts %d) saw keys of one group from different transactions: %v (every transaction writes all keys of its group %s)", rec.Reader, rec.ReadTs, rec.First, g), detail)
+				return
+			}
 		}
 		for _, k := range keys {
 			ks := string(k)
@@ -275,7 +291,7 @@ func run(c *core.Case) {
 				return
 			}
 		}
-		if len(m) != len(keys) {
+		if len(m) != len(groups[0]) {
 			c.Violation("C05|transaction-partially-stored", fmt.Sprintf("transaction %s stored only %v", id, m), nil)
 			return
 		}
@@ -308,7 +324,7 @@ func init() {
 		ID:    "C05",
 		Level: "exploration",
 		Race:  true,
-		Rule: "case = 2-3 committers x 25 transactions writing k1..k3 with the transaction id, 3-5 readers x 25 read-only transactions (each key read twice + one iterator pass) on a real DB; the H4 yield sites (commit-ts issue/registration, read-ts loads, watermark begin/add/advance/rebuild, doneCommit) delay or deschedule goroutines in one of 4 seed-chosen perturbation modes; " +
+		Rule: "case = 2-3 committers x 25 transactions writing their key group with the transaction id (even cases: one shared group k1..k3; odd cases: two keys of its own per committer), 3-5 readers x 25 read-only transactions (each key read twice + one iterator pass) on a real DB; the H4 yield sites (commit-ts issue/registration, read-ts loads, watermark begin/add/advance/rebuild, doneCommit) delay or deschedule goroutines in one of 4 seed-chosen perturbation modes; " +
 			"offline oracle over the recorded reads + the final all-versions dump: repeatable reads (point and iterator), no mixed transaction ids, every read = newest committed version <= read ts, every transaction stored completely at one version; " +
 			"non-trivial = cases in which at least one reader computed its read timestamp while a committer sat between 'commit ts issued' and 'doneCommit' (measured at the yield sites); distinct = (case, mode, hits, distinct read timestamps); runs under the race detector",
 		Assumptions:      []string{"perturbation is randomised delay at real suspension points (PCT-style), not exhaustive schedule enumeration; the evidence reports how many readers landed inside the commit window and per-site yield counts"},
